@@ -31,8 +31,8 @@ def one(seed_dir: str) -> dict:
         r = subprocess.run(['git', 'apply', str(sd / 'patch.diff')], cwd=scratch, capture_output=True, text=True)
         how = 'git apply'
         if r.returncode != 0:
-            r = subprocess.run(['patch', '-p1', '--fuzz=3', '-i', str(sd / 'patch.diff')], cwd=scratch, capture_output=True, text=True)
-            how = 'patch --fuzz=3'
+            r = subprocess.run(['patch', '-p1', '--fuzz=0', '-i', str(sd / 'patch.diff')], cwd=scratch, capture_output=True, text=True)
+            how = 'patch --fuzz=0'
         if r.returncode != 0:
             return {'id': sid, 'path': str(sd), 'applied': False, 'error': (r.stdout + r.stderr)[-300:]}
         fired = {}
